@@ -249,7 +249,7 @@ pub fn run(ctx: &Ctx) -> Outcome {
     }
     out.sample(Json::s("constant hasher, 14 keys in one tree bin, compute on key 3 paused inside its closure, competitor remove(3): must block until the closure returns, then return the new value"));
     // ---- (ii)
-    let runs = ctx.q(40u64, 600);
+    let runs = ctx.q(40u64, 2000);
     for i in 0..runs {
         if !ctx.time_left() {
             break;
